@@ -73,6 +73,12 @@ func checkC20(c *Ctx) {
 	c.Rule("C20-R14", "re-doing the layout after the orientation changes, in an enclosing box as well: wherever a BoxLayout marks its layout changed (SetOrientation, Add/Insert/RemoveWidget) it posts the content event")
 	c.Expect("C20-R14", 3)
 	checkOrientationChangePosts(c, p, "C20-R14")
+	c.Rule("C20-R15", "re-doing the layout after a child changes, whichever box holds it now: WidgetWatchers.PostEvent delivers to the handlers watching at the time of the call and keeps no delivery list between calls")
+	c.Expect("C20-R15", 1)
+	checkWatchersDeliveredFresh(c, p, "C20-R15")
+	c.Rule("C20-R16", "the surplus is distributed among children in proportion to their fill factors, so none of it goes to a child that does not expand: the extents handed to the children's view ports are computed, never the negative constant meaning \"the rest of the parent\"")
+	c.Expect("C20-R16", 1)
+	checkLayoutExtentsNeverNegative(c, p, "C20-R16")
 	bl := methods(blOwner)
 	if len(vp) < 15 || len(bl) < 10 {
 		c.Undecided("C20-R1", "methods", "-", fmt.Sprintf("found %d ViewPort and %d BoxLayout methods", len(vp), len(bl)))
